@@ -90,8 +90,15 @@ def docs(draw, isar=False):
         base = draw(expr.expressions(dict(env), depth=2, **skw))
         k = draw(st.integers(1, 9))
         e = Bin('+', Bin('-', base, Num(base.eval(env))), Num(k))
-        form = draw(st.integers(0, 3))
-        if form == 0:
+        form = draw(st.integers(0, 4))
+        if form == 2:
+            # rows x inexact quotient: r * (X / q) differs from r * X / q
+            q = draw(st.integers(2, 7))
+            x = draw(st.integers(q + 1, 40).filter(lambda v: v % q))
+            cands = sorted(n for n, v in env.items() if q < v <= 40 and v % q)
+            xe = Name(draw(st.sampled_from(cands))) if cands and draw(st.booleans()) else Num(x)
+            e = Bin('*', Num(draw(st.integers(2, 3))), Bin('/', xe, Num(q)))
+        elif form == 0:
             e = Bin('*', Paren(e) if draw(st.booleans()) else e, Num(draw(st.integers(1, 3))))
         elif form == 1:
             # a product of two sums (the two extents of a two-dimensional array, see render_isar)
